@@ -1,7 +1,7 @@
 (* C09 -- Termination is prompt, total and never misattributed (the library's own logic: the set-once
    result cell, the worker's exit protocol, the error mapping; "bounded time" is bounded steps of the model;
    runtime wake-ups are observed by the wire suites). *)
-From WT.Model Require Import Base Varint Ids Frame Runner Term Closing.
+From WT.Model Require Import Base Varint Ids Frame Runner Term Closing Handoff.
 From WT.Proofs Require Import TermP ClosingP.
 
 Theorem C09_at_most_one_result :
@@ -69,6 +69,21 @@ Theorem C09_shared_senders_refuted :
   snd (accept KBi s) = AErr /\ snd (accept_shared KBi s) = APending /\
   snd (accept_shared KBi (task_send 1 KBi s)) = APending.
 Proof. exact shared_senders_refuted. Qed.
+
+(* Closing.v is the per-kind projection of the hand-off system of Handoff.v (C07/C08): its moves are that
+   system's TaskSend and AppRecv, so the two sets of theorems speak about one and the same machine *)
+Theorem C09_closing_refines_handoff_send :
+  forall cap k c s id p, kof k c = kst_of s -> ready s = id :: p ->
+    match step cap s (TaskSend id) with
+    | Some s' => kof k (task_send cap k c) = kst_of s'
+    | None => task_send cap k c = c
+    end.
+Proof. exact task_send_is_handoff_step. Qed.
+Theorem C09_closing_refines_handoff_recv :
+  forall cap k c s id r, kof k c = kst_of s -> chan s = id :: r ->
+    snd (accept k c) = AItem id /\
+    exists s', step cap s AppRecv = Some s' /\ kof k (fst (accept k c)) = kst_of s'.
+Proof. exact accept_is_handoff_step. Qed.
 
 Example C09_example :
   snd (crun (mkcell (@None N) 1) [CGet; CSet 7; CSet 9; CGet; CDropSetter; CGet]) =
